@@ -908,12 +908,28 @@ func Formals(argSymbols ...string) *LVal {
 // loc is the location of the tail-call expression itself: the frame that
 // resumes the call reports argument-binding errors there rather than at the
 // call site that first entered the loop.
-func markTailRec(npop int, fun *LVal, args *LVal, loc *token.Location) *LVal {
+//
+// pkg is the package that is current where the tail call is made.  A builtin
+// works in the current package (funcall and apply resolve a symbol there, set
+// binds there), and the frame that resumes the call may belong to a function
+// of another package.
+func markTailRec(npop int, fun *LVal, args *LVal, loc *token.Location, pkg *Package) *LVal {
 	return &LVal{
 		Type:   LMarkTailRec,
 		source: loc,
+		Native: pkg,
 		Cells:  []*LVal{Int(npop), Int(npop), fun, args},
 	}
+}
+
+// tailRecPackage returns the package that was current where the tail call
+// recorded by the mark was made.
+func (v *LVal) tailRecPackage() *Package {
+	if v.Type != LMarkTailRec {
+		panic("not marker-tail-recursion")
+	}
+	pkg, _ := v.Native.(*Package)
+	return pkg
 }
 
 // tailRecElided, tailRecFun and tailRecArgs read a tail-recursion mark.
